@@ -30,6 +30,11 @@ def system_witness(ctx):
     ctx.case(("system-witness",), nontrivial=True)
     fails = []
     c_state = res["states"].get("c")
+    ncstart = sum(1 for e in res["events"] if e == ["START", "c"])
+    ctx.stats["system_replay_c_starts"] = ncstart
+    if c_state == 23 and ncstart < 2:
+        fails.append((SIG_RERUN, f"real serve(): f.txt was rewritten during c's command but c was executed only "
+                                 f"{ncstart} time(s) and is SUCCEEDED (events {res['events']})", {"system": res}))
     if c_state == 23 and res["c_read"] != res["f_final"]:
         fails.append((SIG_RERUN,
                       f"real serve(): step c read f.txt = {res['c_read']!r}, f.txt was rewritten by the re-executed "
